@@ -90,6 +90,64 @@ theorem no_stable (p : Prog) (hp : p.onlyReadFull) (pre ext : Bytes) (h : p.run 
     p.run (pre ++ ext) = .no := by
   rw [run_stable p hp pre ext (by rw [h]; decide)]; exact h
 
+/-! ### panic-freedom and allocation bounds, structurally -/
+
+/-- no leaf of the program is a panic -/
+inductive Safe : Prog → Prop
+  | ret (v : Verdict) (h : v ≠ .panic) : Safe (.ret v)
+  | readFull (n : Nat) (k : Bytes → Prog) (h : ∀ b, b.length = n → Safe (k b)) : Safe (.readFull n k)
+  | readAtLeast (c m : Nat) (k : Bytes → Prog) (h : ∀ b, b.length ≤ c → (m = 0 ∨ m ≤ b.length) → Safe (k b)) :
+      Safe (.readAtLeast c m k)
+
+theorem Safe.run_ne_panic {p : Prog} (h : Safe p) (bs : Bytes) : p.run bs ≠ .panic := by
+  induction h generalizing bs with
+  | ret v hv => exact hv
+  | readFull n k _ ih =>
+    simp only [run]; split
+    · exact ih _ (by simp; omega) _
+    · simp
+  | readAtLeast c m k _ ih =>
+    simp only [run]; split
+    · simp
+    · split
+      · exact ih [] (by simp) (Or.inl ‹m = 0›) _
+      · split
+        · rename_i hm
+          exact ih _ (by simp; omega) (Or.inr (by simp; omega)) _
+        · simp
+
+/-- every execution allocates at most `B` bytes of read buffers -/
+inductive AllocLe : Prog → Nat → Prop
+  | ret (v : Verdict) (B : Nat) : AllocLe (.ret v) B
+  | readFull (n : Nat) (k : Bytes → Prog) (B : Nat) (hn : n ≤ B) (h : ∀ b, b.length = n → AllocLe (k b) (B - n)) :
+      AllocLe (.readFull n k) B
+  | readAtLeast (c m : Nat) (k : Bytes → Prog) (B : Nat) (hn : c ≤ B)
+      (h : ∀ b, b.length ≤ c → (m = 0 ∨ m ≤ b.length) → AllocLe (k b) (B - c)) : AllocLe (.readAtLeast c m k) B
+
+theorem AllocLe.alloc_le {p : Prog} {B : Nat} (h : AllocLe p B) (bs : Bytes) : p.alloc bs ≤ B := by
+  induction h generalizing bs with
+  | ret v B => simp [alloc]
+  | readFull n k B hn _ ih =>
+    simp only [alloc]; split
+    · have := ih (bs.take n) (by simp; omega) (bs.drop n); omega
+    · omega
+  | readAtLeast c m k B hn _ ih =>
+    simp only [alloc]; split
+    · omega
+    · split
+      · have := ih [] (by simp) (Or.inl ‹m = 0›) bs; omega
+      · split
+        · rename_i hm
+          have := ih (bs.take (min c bs.length)) (by simp; omega) (Or.inr (by simp; omega)) (bs.drop (min c bs.length))
+          omega
+        · omega
+
+theorem ofRes_safe (r : Res Verdict) (h : r.isPanic = false) (hv : ∀ v, r = .ok v → v ≠ .panic) : Safe (ofRes r) := by
+  cases r with
+  | ok v => exact .ret v (hv v rfl)
+  | err c => exact .ret _ (by simp)
+  | panic s => simp [Res.isPanic] at h
+
 theorem consumed_le (p : Prog) (bs : Bytes) : p.consumed bs ≤ bs.length := by
   induction p generalizing bs with
   | ret v => simp [consumed]
